@@ -333,7 +333,7 @@ def rule_R4_no_nonatomic_rmw(ctx, facts_list, rid="R4"):
                             and peel(s[2][0]) == cell:
                         hits.append((b, c, s))
     ctx.extra["R4_store_sites_scanned"] = n_sites
-    ctx.floor(rid, "store/set sites scanned", n_sites, 6)
+    ctx.floor(rid, "store/set sites scanned", n_sites, 4)
     for b, c, s in hits:
         ctx.ob(rid, "%s|%s" % (b.path, strip_generics(c.callee)), False,
                "non-atomic read-modify-write: %s stores a value computed from %s of the same cell" % (strip_generics(c.callee), show(s)), site=c.span)
